@@ -25,12 +25,13 @@ import (
 // ---------------------------------------------------------------------------
 
 type watchState struct {
-	mu       sync.Mutex
-	seed     int64
-	caseJSON json.RawMessage
-	began    time.Time
-	replay   *ReplayFile // replay mode: the file being replayed
-	curPath  string
+	mu          sync.Mutex
+	seed        int64
+	caseJSON    json.RawMessage
+	began       time.Time
+	heapAtBegin int         // what earlier runs left behind (goroutines of torn-down runs keep their buffers) does not count
+	replay      *ReplayFile // replay mode: the file being replayed
+	curPath     string
 }
 
 var watch watchState
@@ -47,7 +48,7 @@ func (c *Ctx) Begin(seed int64, cs any) {
 			c.Res.Counters["max:run-wall-s"] = d
 		}
 	}
-	watch.seed, watch.caseJSON, watch.began = seed, b, now
+	watch.seed, watch.caseJSON, watch.began, watch.heapAtBegin = seed, b, now, heapMB()
 	watch.mu.Unlock()
 	if watch.curPath != "" {
 		rf := ReplayFile{Property: c.Property, Harness: c.Harness, Mode: c.Mode, Tier: c.Tier, RunSeed: seed, Case: b, Race: simrt.RaceBuild}
@@ -94,7 +95,7 @@ func (c *Ctx) startWatchdog() {
 		for {
 			time.Sleep(50 * time.Millisecond)
 			watch.mu.Lock()
-			began, seed, cs, rp := watch.began, watch.seed, watch.caseJSON, watch.replay
+			began, seed, cs, rp, h0 := watch.began, watch.seed, watch.caseJSON, watch.replay, watch.heapAtBegin
 			watch.mu.Unlock()
 			if began.IsZero() {
 				continue
@@ -103,8 +104,8 @@ func (c *Ctx) startWatchdog() {
 			if int64(h) > heapPeakMB.Load() {
 				heapPeakMB.Store(int64(h))
 			}
-			if h > heapLimit {
-				c.watchdogFire("runaway-memory", fmt.Sprintf("the heap grew to %d MB of objects during one simulated run (limit %d MB): a call into the code under test allocates without bound", h, heapLimit), seed, cs, rp)
+			if h-h0 > heapLimit {
+				c.watchdogFire("runaway-memory", fmt.Sprintf("the heap grew from %d to %d MB of objects during one simulated run (limit: %d MB of growth): a call into the code under test allocates without bound", h0, h, heapLimit), seed, cs, rp)
 			}
 			if d := time.Since(began); d > hang {
 				c.watchdogFire("no-return", fmt.Sprintf("one simulated run has not finished after %v of wall-clock time: a call into the code under test does not return", d.Round(time.Second)), seed, cs, rp)
